@@ -16,10 +16,12 @@ if git diff --quiet -- . ':!shuttle/tests'; then git apply SEED/patch.diff; fi
 echo "== demo WITH the change (expected: fails)"
 cargo test -p shuttle --offline --test "$DEMO" -j4 -- --test-threads=2 2>&1 | grep -E "^test |test result|panicked" | head -20
 echo "== demo WITHOUT the change (expected: passes)"
-git stash push -q -- $(git diff --name-only) && {
+# (never `git stash` here: the stash stack is shared by all worktrees of a repository)
+git apply -R SEED/patch.diff && {
   cargo test -p shuttle --offline --test "$DEMO" -j4 -- --test-threads=2 2>&1 | grep -E "^test |test result|panicked" | head -20
-  git stash pop -q
+  git apply SEED/patch.diff
 }
+git diff -- . ':!shuttle/tests' | diff -q - SEED/patch.diff >/dev/null && echo "worktree change == SEED/patch.diff" || echo "WARNING: worktree change differs from SEED/patch.diff"
 echo "== repository test suite WITH the change (stable baseline list)"
 cargo nextest run --workspace --no-fail-fast --tool-config-file pb:/w/lib/nextest.toml --profile pb --test-threads 4 --offline -E "not binary($DEMO)" >"$WT/SEED/suite.log" 2>&1
 JUNIT=$(find "$WT/target/nextest/pb" -name junit.xml | head -1)
